@@ -4,7 +4,9 @@ C=$1; shift
 cd /repo || exit 9
 if ! git diff --quiet; then echo "/repo has uncommitted changes"; exit 9; fi
 git show "$C" -- src | git apply -R || { echo "cannot revert $C"; exit 9; }
+E=$(mktemp -d); cp -r /verif/evidence/. $E/ 2>/dev/null
 for id in "$@"; do
   (cd /verif && ./check "$id" 2>&1 | grep -E "^VIOLATION|^KNOWN|^CANNOT|^  rule=|^\[" )
 done
 git -C /repo reset -q --hard HEAD
+cp -r $E/. /verif/evidence/ 2>/dev/null; rm -rf $E
